@@ -1,0 +1,70 @@
+//! Verification hooks. Only compiled with the `verif-hooks` feature; never part of a normal build.
+//!
+//! A thread-local step budget ("fuel") lets an external harness cut a runaway
+//! search or compilation deterministically, and observe how many steps an
+//! operation took and how large the backtracking store grew.
+
+use std::cell::Cell;
+
+thread_local! {
+    static REMAINING: Cell<u64> = const { Cell::new(u64::MAX) };
+    static USED: Cell<u64> = const { Cell::new(0) };
+    static EXHAUSTED: Cell<bool> = const { Cell::new(false) };
+    static MAX_STACK: Cell<usize> = const { Cell::new(0) };
+}
+
+/// What happened since the last `set_fuel`.
+#[derive(Debug, Clone, Copy, PartialEq, Eq)]
+pub struct Report {
+    /// Steps taken.
+    pub used: u64,
+    /// Whether the budget ran out (results obtained since are meaningless).
+    pub exhausted: bool,
+    /// High-water mark of the backtrack stack (backtracker) or state stack (PikeVM).
+    pub max_stack: usize,
+}
+
+/// Grant `n` steps to this thread and reset the report. `u64::MAX` means unlimited.
+pub fn set_fuel(n: u64) {
+    REMAINING.with(|r| r.set(n));
+    USED.with(|u| u.set(0));
+    EXHAUSTED.with(|e| e.set(false));
+    MAX_STACK.with(|m| m.set(0));
+}
+
+/// Read the report for this thread.
+pub fn report() -> Report {
+    Report {
+        used: USED.with(|u| u.get()),
+        exhausted: EXHAUSTED.with(|e| e.get()),
+        max_stack: MAX_STACK.with(|m| m.get()),
+    }
+}
+
+/// Take one step. \return true if the budget is exhausted and the caller must give up.
+#[inline]
+pub(crate) fn tick() -> bool {
+    REMAINING.with(|r| {
+        let v = r.get();
+        if v == 0 {
+            EXHAUSTED.with(|e| e.set(true));
+            true
+        } else {
+            if v != u64::MAX {
+                r.set(v - 1);
+            }
+            USED.with(|u| u.set(u.get().wrapping_add(1)));
+            false
+        }
+    })
+}
+
+/// Record the current size of the backtracking store.
+#[inline]
+pub(crate) fn note_stack(len: usize) {
+    MAX_STACK.with(|m| {
+        if len > m.get() {
+            m.set(len)
+        }
+    });
+}
